@@ -11,7 +11,7 @@ NOT_APPLICABLE = {
 }
 
 # Properties whose rule module has been reviewed and passes on the unchanged tree; only these are claimed in MANIFEST.json.
-READY = ['C01', 'C04', 'C21']
+READY = ['C01', 'C03', 'C04', 'C10', 'C12', 'C13', 'C15', 'C17', 'C18', 'C19', 'C21', 'C23', 'C29', 'C30']
 
 ENGINES = {
     'source_commits': [],
